@@ -524,6 +524,78 @@ def insertAll : List (Name × SVal) → Ctx → Option Ctx
 def ctxOfEntries (m : List (Key × Value)) : Ctx :=
   m.foldl (fun c (e : Key × Value) => ctxInsert (fmtKey e.1) e.2 c) []
 
+/-! ## `impl Serialize for Value` / `for Key` (value/mod.rs, key.rs): a `Value` given to serde -/
+
+/-- the serializer call `impl Serialize for Key` makes -/
+def keySer : Key → SVal
+  | .bool b => .bool b
+  | .u64 n => .int .u64 (n : Int)
+  | .i64 n => .int .i64 n
+  | .u128 n => .int .u128 (n : Int)
+  | .i128 n => .int .i128 n
+  | .str s => .str s
+
+mutual
+/-- the serializer calls `impl Serialize for Value` makes: none and undefined are `serialize_unit`,
+integers keep their width, bytes go through `serialize_bytes`, a string through `serialize_str`
+(its safe flag is not part of the serde data model), arrays are sequences, maps are maps -/
+def valueSer : Value → SVal
+  | .undef => .unit
+  | .none => .unit
+  | .bool b => .bool b
+  | .u64 n => .int .u64 (n : Int)
+  | .i64 n => .int .i64 n
+  | .u128 n => .int .u128 (n : Int)
+  | .i128 n => .int .i128 n
+  | .f64 x => .f64 x
+  | .str _ s => .str s
+  | .bytes bs => .cstring bs
+  | .arr xs => .seq (valueSerList xs)
+  | .map es => .map (valueSerEntries es)
+
+def valueSerList : List Value → List SVal
+  | [] => []
+  | v :: vs => valueSer v :: valueSerList vs
+
+def valueSerEntries : List (Key × Value) → List (SVal × SVal)
+  | [] => []
+  | (k, v) :: es => (keySer k, valueSer v) :: valueSerEntries es
+end
+
+mutual
+/-- what survives a conversion: undefined becomes none and a safe string a normal string -/
+def plainOf : Value → Value
+  | .undef => .none
+  | .str _ s => .str false s
+  | .arr xs => .arr (plainOfList xs)
+  | .map es => .map (plainOfEntries es)
+  | v => v
+
+def plainOfList : List Value → List Value
+  | [] => []
+  | v :: vs => plainOf v :: plainOfList vs
+
+def plainOfEntries : List (Key × Value) → List (Key × Value)
+  | [] => []
+  | (k, v) :: es => (k, plainOf v) :: plainOfEntries es
+end
+
+mutual
+/-- every map in the value has pairwise different keys (`keyEq`), as any `HashMap` has -/
+def KeysDistinct : Value → Prop
+  | .arr xs => KeysDistinctList xs
+  | .map es => (es.Pairwise (fun a b => keyEq a.1 b.1 = false)) ∧ KeysDistinctEntries es
+  | _ => True
+
+def KeysDistinctList : List Value → Prop
+  | [] => True
+  | v :: vs => KeysDistinct v ∧ KeysDistinctList vs
+
+def KeysDistinctEntries : List (Key × Value) → Prop
+  | [] => True
+  | (_, v) :: es => KeysDistinct v ∧ KeysDistinctEntries es
+end
+
 /-! ## the family of types and values the round-trip property is about -/
 
 /-- A type whose values may serialise to `Value::None`: `Option`, `()`, unit structs, and newtype
